@@ -931,6 +931,41 @@ fn c14_slice_owned_all() {
     c14_slice_owned_all_body(kani::any(), kani::any(), kani::any(), kani::any());
 }
 
+// quick stand-in for the 0-element case of `c14_slice_owned_all`: an EMPTY owned vector that still owns a buffer
+// (`Vec::with_capacity(1)`, nothing pushed: kind Owned, len 0, capacity 1) through all 16 two-step sequences -- a clone must get
+// its own buffer (or none), never alias the original's.
+pub fn c14_slice_owned_empty_body(which: u8, op1: u8, op2: u8) {
+    slice_class(1, which, 0, 1, [op1, op2, 0], 2);
+}
+#[cfg(kani)]
+#[kani::proof]
+#[kani::unwind(8)]
+fn c14_slice_owned_empty() {
+    c14_slice_owned_empty_body(kani::any(), kani::any(), kani::any());
+}
+
+// Two values that START at the same address are not the same value: `==`, `cmp`, `partial_cmp` of two Cow<str> borrowed from one
+// buffer with different lengths must follow the CONTENT (C03 relies on this for SharedString / KeyName / Label).
+pub fn c14_str_alias_eq_body(la: usize, lb: usize, ka: bool, kb: bool) {
+    kani::assume(la <= 3 && lb <= 3);
+    static S: &str = "abc";
+    let a: Cow<'static, str> = if ka { Cow::from_borrowed(&S[..la]) } else { Cow::const_str(&S[..la]) };
+    let b: Cow<'static, str> = if kb { Cow::from_borrowed(&S[..lb]) } else { Cow::const_str(&S[..lb]) };
+    let same = la == lb;
+    assert!((a == b) == same, "== compares content, not the start address");
+    assert!((a.cmp(&b) == Ordering::Equal) == same, "cmp == Equal exactly on equal content");
+    assert!(a.partial_cmp(&b) == Some(a.cmp(&b)));
+    assert!((a == b) == (*a == *b), "== agrees with the dereferenced strings");
+    kani::cover!(la == 0 && lb == 3);
+    kani::cover!(la == 2 && lb == 2);
+}
+#[cfg(kani)]
+#[kani::proof]
+#[kani::unwind(6)]
+fn c14_str_alias_eq() {
+    c14_str_alias_eq_body(kani::any(), kani::any(), kani::any(), kani::any());
+}
+
 // quick: 3 elements, all 16 two-step sequences; thorough (`_all`): also 0 and 1 element
 pub fn c14_slice_shared_body(which: u8, op1: u8, op2: u8) {
     slice_class(2, which, 3, 0, [op1, op2, 0], 2);
